@@ -203,12 +203,6 @@ def translate(cfg, outdir):
         meta.append({"unit": u["name"], "cname": cname, "tu": u["tu"], "loops": unit.loops,
                      "ast_sha1": hashlib.sha1(json.dumps(node, sort_keys=True).encode()).hexdigest(),
                      "begin_offset": b.get("offset", b.get("expansionLoc", {}).get("offset")),
-<<<<<<< HEAD
-                     "end_offset": e.get("offset", e.get("expansionLoc", {}).get("offset")), "line": line0})
-    for lu in em.lifted_units:  # lifted lambdas / per-call-site algorithm models: may carry contracts like units
-        meta.append({"unit": "%s of %s" % (lu["kind"], lu["of"]), "cname": lu["cname"], "tu": None, "loops": lu["loops"],
-                     "lifted": True})
-=======
                      "end_offset": e.get("offset", e.get("expansionLoc", {}).get("offset")), "line": line0,
                      "auto_accessor": accessor_only})
         return True
@@ -237,7 +231,9 @@ def translate(cfg, outdir):
                 tried.add(cn)
                 qn = d.split(" ")[0]
                 emit_unit({"name": qn, "tu": tu, "cname": cn, "class": cn.rsplit("__", 1)[0]}, objs, True)
->>>>>>> main
+    for lu in em.lifted_units:  # lifted lambdas / per-call-site algorithm models: may carry contracts like units
+        meta.append({"unit": "%s of %s" % (lu["kind"], lu["of"]), "cname": lu["cname"], "tu": None, "loops": lu["loops"],
+                     "lifted": True})
     # extra fields requested by the spec (ghost fields or fields used only by predicates)
     for tag, fields in cfg.get("extra_fields", {}).items():
         for f, ct in fields.items():
